@@ -39,6 +39,30 @@ type ordEval struct {
 	inl *inliner
 	// sels: values of selector expressions on locals bound to a table entry ("f.width")
 	sels map[string]int64
+	// alias: locals standing for an operand expression (lv of `for i, lv := range l[:n]`, rv := r[i])
+	alias map[types.Object]ast.Expr
+}
+
+// sideOf is side after locals that stand for an operand expression are replaced by it; a re-slice of
+// an operand (l[:n]) is that operand.
+func (e *ordEval) sideOf(x ast.Expr) (string, string) {
+	for depth := 0; depth < 4; depth++ {
+		x = ast.Unparen(x)
+		if sl, ok := x.(*ast.SliceExpr); ok {
+			x = sl.X
+			continue
+		}
+		id, ok := x.(*ast.Ident)
+		if !ok || e.alias == nil {
+			break
+		}
+		a, ok := e.alias[e.info.ObjectOf(id)]
+		if !ok {
+			break
+		}
+		x = a
+	}
+	return e.side(x)
 }
 
 func (e *ordEval) fail(format string, a ...interface{}) {
@@ -49,8 +73,8 @@ func (e *ordEval) fail(format string, a ...interface{}) {
 
 // cmpOperands: ordering of (a ? b) if a and b are the two sides of one key.
 func (e *ordEval) cmpOperands(a, b ast.Expr) (int, bool) {
-	sa, ka := e.side(a)
-	sb, kb := e.side(b)
+	sa, ka := e.sideOf(a)
+	sb, kb := e.sideOf(b)
 	if sa == "" || sb == "" || ka != kb || sa == sb {
 		return 0, false
 	}
@@ -146,7 +170,7 @@ func (e *ordEval) evalInt(x ast.Expr) int64 {
 			return 1 // same-type evaluation: both operands carry the same type code
 		}
 		if fn == "len" && len(v.Args) == 1 {
-			if s, k := e.side(v.Args[0]); s != "" {
+			if s, k := e.sideOf(v.Args[0]); s != "" {
 				if sl, ok := e.slices[s+":"+k]; ok {
 					return int64(sl.n)
 				}
@@ -177,8 +201,9 @@ func (e *ordEval) evalBool(x ast.Expr) bool {
 		return constant.BoolVal(tv.Value)
 	}
 	// a bool-typed operand used as a condition: with false < true its value follows from the ordering
-	if s, k := e.side(x); s != "" {
-		if b, ok := e.info.TypeOf(x).Underlying().(*types.Basic); ok && b.Info()&types.IsBoolean != 0 {
+	if s, k := e.sideOf(x); s != "" {
+		if tx := e.info.TypeOf(x); tx == nil {
+		} else if b, ok := tx.Underlying().(*types.Basic); ok && b.Info()&types.IsBoolean != 0 {
 			o := e.ord[k]
 			if s == "r" {
 				o = -o
@@ -207,7 +232,7 @@ func (e *ordEval) evalBool(x ast.Expr) bool {
 		}
 		// nil tests on abstract slices
 		if id, ok := ast.Unparen(v.Y).(*ast.Ident); ok && id.Name == "nil" && (v.Op == token.EQL || v.Op == token.NEQ) {
-			if s, k := e.side(v.X); s != "" {
+			if s, k := e.sideOf(v.X); s != "" {
 				if sl, ok := e.slices[s+":"+k]; ok {
 					return sl.isNil == (v.Op == token.EQL)
 				}
@@ -363,7 +388,11 @@ func (e *ordEval) run(list []ast.Stmt) (ordResult, bool) {
 			if len(v.Lhs) == 1 && len(v.Rhs) == 1 {
 				if id, ok := v.Lhs[0].(*ast.Ident); ok {
 					// aliases of the operands (that := o.(*T)) are resolved by side(); integer locals evaluated
-					if s, _ := e.side(v.Rhs[0]); s != "" {
+					if s, _ := e.sideOf(v.Rhs[0]); s != "" {
+						if e.alias == nil {
+							e.alias = map[types.Object]ast.Expr{}
+						}
+						e.alias[e.info.ObjectOf(id)] = v.Rhs[0]
 						continue
 					}
 					if _, isPtr := e.info.TypeOf(v.Rhs[0]).Underlying().(*types.Pointer); isPtr {
@@ -401,7 +430,59 @@ func (e *ordEval) run(list []ast.Stmt) (ordResult, bool) {
 			if res, ret := e.run(v.List); ret {
 				return res, true
 			}
+		case *ast.RangeStmt:
+			// for i, x := range <operand slice or a re-slice of it>: one iteration per element of the
+			// abstract slice (bounded by the re-slice's upper bound), x standing for operand[i]
+			sd, k := e.sideOf(v.X)
+			sl, known := e.slices[sd+":"+k]
+			if sd == "" || !known {
+				e.fail("range over something that is not an operand slice: %s", types.ExprString(v.X))
+				return ordResult{}, true
+			}
+			n := int64(sl.n)
+			base := ast.Unparen(v.X)
+			if se, ok := base.(*ast.SliceExpr); ok {
+				base = se.X
+				if se.High != nil {
+					if h := e.evalInt(se.High); h < n {
+						n = h
+					}
+				}
+				if se.Low != nil {
+					if lo := e.evalInt(se.Low); lo != 0 {
+						e.fail("range over a re-slice that does not start at 0")
+						return ordResult{}, true
+					}
+				}
+			}
+			if e.err != "" {
+				return ordResult{}, true
+			}
+			for i := int64(0); i < n; i++ {
+				idx := ast.Expr(&ast.BasicLit{Kind: token.INT, Value: fmt.Sprint(i)})
+				if kid, ok := v.Key.(*ast.Ident); ok && kid.Name != "_" {
+					e.ints[e.info.ObjectOf(kid)] = i
+					idx = kid
+				}
+				if vid, ok := v.Value.(*ast.Ident); ok && vid.Name != "_" {
+					if e.alias == nil {
+						e.alias = map[types.Object]ast.Expr{}
+					}
+					e.alias[e.info.ObjectOf(vid)] = &ast.IndexExpr{X: base, Index: idx}
+				}
+				if res, ret := e.run(v.Body.List); ret {
+					return res, true
+				}
+				if e.err != "" {
+					return ordResult{}, true
+				}
+			}
 		case *ast.SwitchStmt:
+			if v.Init != nil {
+				if res, ret := e.run([]ast.Stmt{v.Init}); ret {
+					return res, true
+				}
+			}
 			var tagVal int64
 			if v.Tag != nil {
 				tagVal = e.evalInt(v.Tag)
